@@ -599,6 +599,7 @@ def device_oracle_one(ctx, case, anim, ai, setup, passes, lid, stats):
     prev_row = setup["ld"][lid][row]
     due_count = 0
     last_ideal = 0
+    ended_at = None         # non-looping: the first pass that was due (w.r.t. the observed steps) and drew nothing
     for k, ph in enumerate(passes):
         now = nows[k]
         w = [x for x in ph["lw"].get(lid, []) if x[0] == row]
@@ -617,6 +618,10 @@ def device_oracle_one(ctx, case, anim, ai, setup, passes, lid, stats):
                     ctx.fail("device: two steps closer than speed_ms" + who, cut(case, k), f"consecutive steps >= {speed} ms apart",
                              {"steps_at": [t1, now], "apart_ms": now - t1, "all_steps": steps + [now]}, key="dev-rate-limit")
                     return False
+            if not loop and ended_at is not None:
+                ctx.fail("device: a non-looping animation let a due pass go by without a frame (so it had ended, or the pass was wrongly skipped) and drew a frame again later" + who,
+                         cut(case, k), "no frame after the skipped due pass", {"skipped_due_pass_at": nows[ended_at], "frame_again_at": now, "steps_before": steps}, key="dev-due-skipped")
+                return False
             steps.append(now)
             nsteps += 1
             if not loop and nsteps > B:
@@ -640,7 +645,9 @@ def device_oracle_one(ctx, case, anim, ai, setup, passes, lid, stats):
                 if speed <= 0 or last <= 0 or now - last >= speed:
                     ctx.fail("device: a due tick (not early) did not advance a looping animation" + who, cut(case, k), "a frame", f"pass {k} millis={now} last step {last}", key="dev-due-skipped")
                     return False
-            elif due_count <= 1 and nsteps == 0 and not (style == "typewriter" and len(text) == 1):
+            elif not loop and ended_at is None and (speed <= 0 or not steps or steps[-1] <= 0 or now - steps[-1] >= speed):
+                ended_at = k
+            if speed >= 0 and not loop and due_count <= 1 and nsteps == 0 and not (style == "typewriter" and len(text) == 1):
                 ctx.fail("device: the first due tick did not advance the animation" + who, cut(case, k), "a frame", f"pass {k} millis={now}", key="dev-due-skipped")
                 return False
             if cur_row != prev_row:
